@@ -163,9 +163,9 @@ def run_keys(shard, mon, S, only_keys=None):
                 mon.tally("selection_" + ("8" if len(str(of.value)) == 8 else "xxx" if str(of.value).endswith("XXX") else "first"))
         else:
             mon.tally("listed_pair_without_bic")
-            if oc.ok and oc.value != []:
+            if oc.ok and len(oc.value) != 0:
                 mon.viol("bicless_pair_has_candidates", w, [], [str(x) for x in oc.value])
-            if of.ok or of.exc_name != "InvalidBankCode":
+            if of.ok or not of.is_a("InvalidBankCode"):
                 mon.viol("bicless_pair_from_bank_code_not_InvalidBankCode", w, "InvalidBankCode", of.brief())
         # IBAN level
         text = build_iban_around(cc, code, table, rng)
@@ -283,7 +283,7 @@ def run_unlisted(shard, mon, S):
         w = {"country": pair[0], "bank_code": pair[1]}
         for name, fn in (("candidates", S.BIC.candidates_from_bank_code), ("from_bank_code", S.BIC.from_bank_code)):
             o = observe(fn, *pair)
-            if o.ok or o.exc_name != "InvalidBankCode":
+            if o.ok or not o.is_a("InvalidBankCode"):
                 mon.viol(f"unlisted_pair_{name}_not_InvalidBankCode", w, "InvalidBankCode", o.brief())
         mon.tally("unlisted_pairs")
         text = build_iban_around(pair[0], pair[1], table, rng)
